@@ -185,7 +185,15 @@ def r181(ctx):
             par = getattr(par, "_parent", None)
         for e, t, bn in cfg.guards(rn):
             if id(bn.ast) not in enclosing:
-                continue
+                # a guard clause (`if not c: continue` / `return` before the raise) contributes its
+                # condition; an earlier validation clause (`if a: raise ...`) does not
+                ifn = getattr(bn.ast, "_parent", None)
+                while ifn is not None and not isinstance(ifn, ast.If):
+                    ifn = getattr(ifn, "_parent", None)
+                skip_body = (ifn.body if ifn is not None else [])
+                is_guard_clause = bool(skip_body) and isinstance(skip_body[-1], (ast.Continue, ast.Pass)) and not any(isinstance(x, ast.Raise) for s_ in skip_body for x in ast.walk(s_))
+                if not is_guard_clause:
+                    continue
             tn = [x for x in cfg.nodes if x.kind == "test" and x.ast is bn.ast]
             at = tn[0] if tn else rn
             a = C.atom(e, t, at)
